@@ -38,6 +38,7 @@ GroupOk(pre, post, j) ==
     /\ \A k \in 2..n : pre[s + k - 1].op = "LoadAttr" /\ pre[s + k - 1].a = <<q.a[k]>>
     /\ (q.op = "WritePath" => pre[s + n].op = "WriteTop")
     /\ (q.op = "LoadPath" => n >= 2)
+    /\ q.a[1] # "__tera_context"             \* the magic context dump is not a variable: never the head of a merged group
     /\ q.r = Concat(pre, s, s + n - 1)
   ELSE
     /\ s <= Len(pre)
